@@ -224,7 +224,7 @@ pub fn big_freelist_history(seed: u64) -> HistoryCase {
             txs.push(TxSpec { kind: TxKind::Reopen, ops: vec![] });
         }
     }
-    HistoryCase { cfg: Cfg { pagesize: 1024, num_pages: 32, strict: false, populate: false }, fresh_handles: false, txs }
+    HistoryCase { cfg: Cfg { pagesize: 1024, num_pages: 32, strict: false, populate: false }, fresh_handles: false, txs, dance: 0 }
 }
 
 pub fn crash_history(seed: u64) -> HistoryCase {
